@@ -153,6 +153,8 @@ pub struct Th {
     /// Parked at `idle`: enabled only when a wake is owed.
     pub is_main: bool,
     pub gated_points: u64,
+    /// Scheduler step at which the thread parked at its current point.
+    pub parked_at_step: u64,
 }
 
 impl Th {
@@ -178,6 +180,7 @@ impl Th {
             needs_epilogue: false,
             is_main: false,
             gated_points: 0,
+            parked_at_step: 0,
         }
     }
 }
@@ -235,6 +238,8 @@ pub struct St {
     /// park.
     pub root_woken: Option<Arc<std::sync::atomic::AtomicBool>>,
     /// ordinal of spawned task -> salsa event at which to inject a panic
+    /// Last scheduler step at which the main thread reported each of its points.
+    pub main_point_steps: BTreeMap<&'static str, u64>,
     pub task_crash_plan: BTreeMap<u64, u64>,
     pub spawned_tasks: u64,
     pub probes: Probes,
@@ -499,6 +504,7 @@ impl Core {
                 m_progress_at_release: u64::MAX,
                 pump_again: false,
                 root_woken: None,
+                main_point_steps: BTreeMap::new(),
                 task_crash_plan: BTreeMap::new(),
                 spawned_tasks: 0,
                 probes: Probes::default(),
@@ -997,9 +1003,14 @@ impl Controller for Handle {
             None => format!("{who} {}", info.kind.label()),
         });
         {
+            let step = st.step;
+            if st.threads[&who].is_main {
+                st.main_point_steps.insert(info.kind.label(), step);
+            }
             let t = st.threads.get_mut(&who).unwrap();
             t.status = Status::Parked;
             t.point = Some(info);
+            t.parked_at_step = step;
         }
         core.cv.notify_all();
         loop {
